@@ -469,7 +469,7 @@ UNITS = {
     "C15": [unit_deltas("C15"), unit_stack("C15"), unit_deltas_init("C15")],
     "C07": [unit_supports("C07", "tri"), unit_supports("C07", "fbank"), _lazy("contracts.filters_gabor", "unit_gamma_support", "C07"),
             _lazy("contracts.purity", "unit_purity", "C07")],
-    "C03": [unit_si("C03", w) for w in ("chunk", "handle_skip", "preamble", "finalize", "full", "geometry", "supports")] + [unit_si_frame("C03", w) for w in ("fill", "frame", "dft", "idft")],
+    "C03": [unit_si("C03", w) for w in ("chunk", "handle_skip", "preamble", "finalize", "full", "geometry", "supports")] + [_lazy("contracts.si_stream", "unit_filters", "C03")] + [unit_si_frame("C03", w) for w in ("fill", "frame", "dft", "idft")],
     "C13": [_lazy("contracts.shorten", "unit_bit_reader", "C13"), _lazy("contracts.shorten_block", "unit_block", "C13"),
             _lazy("contracts.shorten_block", "unit_fix", "C13"), _lazy("contracts.shorten_block", "unit_div", "C13"),
             _lazy("contracts.shorten_block", "unit_setup", "C13"), _lazy("contracts.shorten_block", "unit_loop", "C13"),
